@@ -43,7 +43,8 @@ def packages(recs):
             for k, ws in enumerate(r["runs"]):
                 runs.append({"rid": "r%d" % k, "writes": [{"name": r["cfgs"][w["i"] - 1]["name"], "bytes": w["enc"]} for w in ws]})
             pkgs.append({"id": "%s%s" % (r["id"], prof[0]), "rec": r["id"], "profile": prof,
-                         "files": {"src/main.sw": abigen.config_script(r["cfgs"])},
+                         # every second script also uses constants that do not fit a register (pointer words in the data section)
+                         "files": {"src/main.sw": abigen.config_script(r["cfgs"], big_consts=(i % 2 == 1))},
                          "want": ["abi", "bytecode", "diag"], "runs": runs})
     return pkgs
 
